@@ -374,6 +374,10 @@ func writeReplay(dir, prop string, o *Obligation, res *FuncResult, outcome strin
 		"detail":     o.Detail,
 		"outcome":    outcome,
 	}
+	if o.ReplaySrc != "" {
+		m["replay_test_go"] = o.ReplaySrc
+		m["replay_pkg_dir"] = o.ReplayDir
+	}
 	if outcome == "" {
 		m["outcome"] = "no replay: " + map[bool]string{true: "the solver gave no model (unknown/timeout)", false: "no concrete input could be built from the model"}[len(o.Model) == 0]
 	}
